@@ -21,8 +21,9 @@ type Piece struct {
 // Arrangement is a sequence of documents loaded one after the other.
 type Arrangement struct {
 	Docs   [][]Piece `json:"docs"`
-	Splits int       `json:"splits"`  // number of documents - 1
-	Moved  int       `json:"extends"` // number of extend blocks
+	Splits int       `json:"splits"`         // number of documents - 1
+	Moved  int       `json:"extends"`        // number of extend blocks
+	Late   bool      `json:"late,omitempty"` // an ill-formed set whose offending member arrives in the last load
 }
 
 func (a *Arrangement) Texts() []string {
